@@ -1,3 +1,93 @@
 import KsiVerif.Util.DriverMain
-open KsiVerif
-def main : IO Unit := runDriver (fun i _ => "skip no-model-yet " ++ i)
+import KsiVerif.Model.Template
+import KsiVerif.Spec.Tlv
+/-! Model driver for C10 — protocol in harness/exec_c10.c. -/
+open KsiVerif KsiVerif.Template
+
+def hx (b : Bytes) : String := toHex b
+
+/-- insertion sort (small lists; stable) -/
+def insertBy (lt : α → α → Bool) (x : α) : List α → List α
+  | [] => [x]
+  | y :: ys => if lt x y then x :: y :: ys else y :: insertBy lt x ys
+def sortBy (lt : α → α → Bool) (l : List α) : List α := l.foldr (insertBy lt) []
+
+mutual
+partial def render (sortGid : Option Nat) : Val → String
+  | .int n => s!"i{n}"
+  | .str b => "s" ++ hx b
+  | .oct b => "o" ++ hx b
+  | .imprint b => "h" ++ hx b
+  | .mdata p => "m" ++ hx p
+  | .der _ => "d"
+  | .obj fs => renderObj sortGid fs
+  | .link l fs => (if l then "L1" else "L0") ++ renderObj sortGid fs
+  | .calLink l h => (if l then "C1h" else "C0h") ++ hx h
+partial def renderObj (sortGid : Option Nat) (fs : List (Nat × Val)) : String :=
+  let gids := sortBy (· < ·) (fs.map (·.1)).eraseDups
+  let parts := gids.map fun g =>
+    let items := (fs.filter (·.1 == g)).map fun (_, v) => render sortGid v
+    let items := if sortGid == some g then sortBy (fun a b => decide (a < b)) items else items
+    s!"{g}=" ++ ",".intercalate items
+  "{" ++ ";".intercalate parts ++ "}"
+end
+
+def cfgOf (good : List String) : Cfg :=
+  let gs := good.filterMap ofHex
+  { derOK := fun b => gs.contains b }
+
+def verdict (cls model impl : String) (spec : Option String) : String :=
+  match spec with
+  | some why => s!"specfail {cls} {why}"
+  | none => if model == impl then s!"ok {cls}" else s!"diff {cls} model={model}"
+
+def showRes (sortGid : Option Nat) : Except Nat (List (Nat × Val)) → String
+  | .error c => s!"{c}"
+  | .ok vs => s!"0 {renderObj sortGid vs}"
+
+def stOf (s : String) : String := (words s).headD "?"
+
+def handle (inp out : String) : String :=
+  match words inp with
+  | "tmpl" :: name :: h :: good =>
+    match ofHex h with
+    | some raw =>
+      let r := templateParse (cfgOf good) name raw
+      verdict s!"tmpl:{name}:{stOf out}" (showRes none r) out none
+    | none => "skip bad-hex"
+  | "aggr" :: ver :: h :: good =>
+    match ofHex h, ver.toNat? with
+    | some raw, some v =>
+      verdict s!"aggr:v{v}:{stOf out}" (showRes none (parseAggrPdu (cfgOf good) v raw)) out none
+    | _, _ => "skip bad-args"
+  | "ext" :: ver :: h :: good =>
+    match ofHex h, ver.toNat? with
+    | some raw, some v =>
+      verdict s!"ext:v{v}:{stOf out}" (showRes none (parseExtPdu (cfgOf good) v raw)) out none
+    | _, _ => "skip bad-args"
+  | "sig" :: h :: good =>
+    match ofHex h with
+    | some raw =>
+      let sg := ((lookup "KSI_Signature").head?.map (·.gid))
+      let ms := match parseSignature (cfgOf good) raw with
+        | .error c => s!"{c}"
+        | .ok vs => s!"0 {renderObj sg vs} ser=0:1"
+      -- the parsed signature re-serializes to the bytes it was parsed from (also with unknown elements)
+      -- (required for inputs in canonical encoding: every level that tiles is minimally encoded)
+      let canonical := match Tlv.parseBlob raw with
+        | .ok t => TlvSpec.encode (Tlv.deepen 12 t) == raw
+        | .error _ => false
+      let spec := if (stOf out) == "0" && canonical && !(out.endsWith " ser=0:1") then some "parsed-signature-does-not-reserialize-to-its-input" else none
+      verdict s!"sig:{stOf out}" ms out spec
+    | none => "skip bad-hex"
+  | "pub" :: h :: good =>
+    match ofHex h with
+    | some raw =>
+      let ms := match parsePubFile (cfgOf good) raw with
+        | .error c => s!"{c}"
+        | .ok (vs, sl) => s!"0 {renderObj none vs} signed={sl}"
+      verdict s!"pub:{stOf out}" ms out none
+    | none => "skip bad-hex"
+  | _ => "skip unknown-op"
+
+def main : IO Unit := runDriver handle
